@@ -6,7 +6,7 @@ import ast
 
 from ..core import Run
 from ..effects import Effects
-from ..indexing import ack_before_writeback, commit_sites, hash_after_commit, page_then_hashmap
+from ..indexing import ack_before_writeback, commit_sites, hash_ack, hash_after_commit, hashmap_readers, page_then_hashmap, remove_add_commit
 from ..paths import enum_paths, first_index, is_call_to
 from ..pymodel import PyModel
 
@@ -34,6 +34,10 @@ def check(run: Run) -> None:
                   "get_next can return a ZID before next_ids.json holds its successor: after a crash the same ZID is handed out again", file="src/zorg/storage/sql/_zid_manager.py", node=fi.node)
     run.floor("returning paths of get_next", n, 1)
     hash_after_commit(run, model, eff, "C13.R2")
+    hash_ack(run, model, eff, "C13.R2")
+    run.rule("C13.R6", "redo is idempotent: every processed page is removed from the index before it is added (also pages that look new), and only reindex depends on the content of file_hash.json")
+    remove_add_commit(run, model, eff, "C13.R6")
+    hashmap_readers(run, model, "C13.R6")
     ack_before_writeback(run, model, eff, "C13.R3")
     page_then_hashmap(run, model, eff, "C13.R4")
     commit_sites(run, model, eff, "C13.R5")
